@@ -18,6 +18,14 @@ PROPS = {
         units=[('codec_mut', r'(with_capacity|read_push|Version\.|impl Version)')],
         kani=[],
     ),
+    'C09': dict(
+        units=[],
+        kani=['c09_assert_max_version'],
+    ),
+    'C20': dict(
+        units=[('codec_mut', r'(Version)')],
+        kani=['c20_version_gte_lt', 'c20_gate_monotone'],
+    ),
     'C13': dict(
         units=[('codec_mut', r'(transpose_one)')],
         kani=[],
